@@ -25,6 +25,8 @@ type harnessSpec struct {
 	Interleave bool     `json:"interleave"` // scheduler decisions at preemption points
 	Thorough   bool     `json:"thorough_only"`
 	MaxPaths   int      `json:"max_paths"`
+	Solver     string   `json:"solver"`
+	Fallback   string   `json:"fallback"`
 	Note       string   `json:"note"`
 }
 
@@ -174,6 +176,10 @@ func cmdCheck(args []string) int {
 			}
 			if h.MaxPaths > 0 {
 				cfg.MaxPaths = h.MaxPaths
+			}
+			if h.Solver != "" {
+				cfg.SolverKind = h.Solver
+				cfg.FallbackKind = h.Fallback
 			}
 			hr := explore(p, cfg, entry)
 			results = append(results, hr)
